@@ -128,11 +128,12 @@ func runC17(c *vk.Ctx) {
 				}
 			}
 		}
-		for _, drv := range []string{"long", "mem", "fs"} {
+		for _, drv := range []string{"long", "mem", "fs", "resume"} {
 			mk := func() (c17driver, *app.Backend) {
-				if drv == "long" {
+				if drv == "long" || drv == "resume" {
 					d := app.NewLongLived(a, cfg)
 					d.FlushAfterError = true
+					d.Recreate = drv == "resume" // a new engine over the same state and cache objects for every request
 					return d, nil
 				}
 				b, _ := app.NewBackend(drv)
@@ -234,7 +235,7 @@ func runC17(c *vk.Ctx) {
 						}
 						if !bad && prev != nil {
 							// snapshots around the refused request
-							if drv == "long" {
+							if drv == "long" || drv == "resume" {
 								if !o.State.Equal(prev.State) || !o.Cache.Equal(prev.Cache) {
 									c.Violate("refused-input-mutates:"+cl+":"+drv+":"+whatDiffers(prev.State, o.State, prev.Cache, o.Cache), fmt.Sprintf("live session differs around refused input %s: before %+v after %+v", printable(rin), prev.State, o.State), key, cs)
 									bad = true
